@@ -550,6 +550,20 @@ func programs() []program {
 		held, _ := p.AddChildTrait("c", trait.Name("B"), trait.Name("D"))
 		par(func() { touch(held) }, func() { p.AddChildTrait("c", trait.Name("A")) }, func() { p.RemoveChildTrait("c", trait.Name("D")) })
 	})
+	// three traits: the stored list then has room behind it (slices grow 1, 2, 4), which an append in place would use
+	add("parent/held-result(3 traits)||AddChildTrait(front)||AddChildTrait(back)", func() {
+		p := parentpb.NewModel()
+		held, _ := p.AddChildTrait("c", trait.Name("B"), trait.Name("D"), trait.Name("F"))
+		par(func() { touch(held) }, func() { p.AddChildTrait("c", trait.Name("A")) }, func() { p.AddChildTrait("c", trait.Name("Z")) })
+	})
+	// one message given to two models at once: what a caller hands in is read, not written
+	add("metadata/two models: MergeMetadata(m)||MergeMetadata(m), the same message m", func() {
+		a, b := metadatapb.NewModel(), metadatapb.NewModel()
+		a.UpdateMetadata(&traits.Metadata{Name: "a", Traits: []*traits.TraitMetadata{{Name: "B", More: map[string]string{"k": "v"}}}})
+		b.UpdateMetadata(&traits.Metadata{Name: "b", Traits: []*traits.TraitMetadata{{Name: "B", More: map[string]string{"k": "w"}}}})
+		shared := &traits.Metadata{Traits: []*traits.TraitMetadata{{Name: "B", More: map[string]string{"z": "1"}}, {Name: "A"}}}
+		par(func() { a.MergeMetadata(shared) }, func() { b.MergeMetadata(shared) })
+	})
 	add("metadata/Merge||Get||UpdateTrait", func() {
 		md := metadatapb.NewModel()
 		md.UpdateMetadata(&traits.Metadata{Name: "n", Traits: []*traits.TraitMetadata{{Name: "B", More: map[string]string{"k": "v"}}}})
